@@ -18,6 +18,10 @@ THEOREMS = [
     "RedunModel.C37.task_hashes_eq",
     "RedunModel.C37.lookup_current_name",
     "RedunModel.C37.names_unique",
+    "RedunModel.C37.lookup_pure",
+    "RedunModel.C37.queries_do_not_matter",
+    "RedunModel.C37.get_hash_none_iff_count_zero",
+    "RedunModel.C37.get_hash_finds_registered",
     "RedunModel.C37.wrap_names",
     "RedunModel.C37.wrap_names_stacked",
 ]
@@ -35,12 +39,15 @@ ASSUMPTIONS = [
 ]
 RULE = ("histories of 1..12 operations over namespaces {'', ns, ns.sub, _w, ns._w}, names {a,b,c}, three bodies, compat hashes, "
         "two wrapper kinds with default or explicit wrapper names: define / redefine (same or new body) / wrap / wrap again / "
-        "define at a hidden name / registry.rename (also onto occupied names, also breaking a wrapper's pointer); after every "
+        "define at a hidden name / registry.rename (also onto occupied names, also breaking a wrapper's pointer), interleaved with read-only "
+        "queries (get(hash=) of a registered / formerly registered / never registered hash, get(task_name=) of a present / absent name, "
+        "iteration); after every "
         "operation the real registry (_tasks items, _task_hash_counts items, task_hashes) is compared with the Lean model and the "
         "property oracle is evaluated on the real registry. distinct = distinct operation sequences; trivial = a single define")
 LEVEL_TEXT = ("Full strength (all histories, arbitrary names and hashes): counts_exact (count of h = number of registered tasks with "
               "hash h), counts_positive, task_hashes_eq (task_hashes = hashes held), lookup_current_name + names_unique (every task "
-              "stored and found under its current full name), wrap_names (plain task: wrapper keeps the visible name, original moves "
+              "stored and found under its current full name), lookup_pure / queries_do_not_matter (read-only queries leave names, counts and "
+              "task_hashes unchanged), get_hash_none_iff_count_zero + get_hash_finds_registered (by-hash lookup vs counts), wrap_names (plain task: wrapper keeps the visible name, original moves "
               "to namespace.wrapper.name) and wrap_names_stacked (second wrapper on top: both lower layers move, pointer updated). "
               "Tied to redun/task.py by step-by-step comparison of the real TaskRegistry with the model over generated histories.")
 LEVEL_NOTE = ("wrap_names_stacked is proved for two layers below the new wrapper (the general n-layer statement is exercised by the tie "
@@ -129,8 +136,32 @@ class Real:
         return tasks, counts, hashes
 
 
+def gen_query(rng, real):
+    """Read-only queries: get(hash=) for a registered / formerly registered / never registered hash, get(task_name=)
+    for a present / absent name, iteration."""
+    k = rng.random()
+    if k < 0.55:
+        live = {id(t) for t in real.reg._tasks.values()}
+        cur = [o for o, obj in real.oids.values() if id(obj) in live]
+        gone = [o for o, obj in real.oids.values() if id(obj) not in live]
+        pick = rng.random()
+        if gone and pick < 0.45:
+            return ("geth", rng.choice(gone))
+        if cur and pick < 0.8:
+            return ("geth", rng.choice(cur))
+        return ("geth", None)
+    if k < 0.9:
+        keys = list(real.reg._tasks)
+        if keys and rng.random() < 0.6:
+            return ("getn", rng.choice(keys))
+        return ("getn", fullname(rng.choice(NAMESPACES), rng.choice(NAMES)))
+    return ("iter",)
+
+
 def gen_op(rng, real):
     keys = list(real.reg._tasks)
+    if keys and rng.random() < 0.3:
+        return gen_query(rng, real)
     k = rng.random()
     if not keys or k < 0.38:
         ns = rng.choice(NAMESPACES[:3]) if rng.random() < 0.8 else rng.choice(NAMESPACES)
@@ -171,6 +202,20 @@ def apply_real(real, op):
             t = rt.task(name=name, namespace=ns, compat=[op[3]])(mod.body0)
         oid = real.new_oid(t)
         return "ok", line("def", oid, ns, name, model_hash_def(op)), info
+    if op[0] == "geth":
+        by_oid = {o: obj for o, obj in real.oids.values()}
+        digest = by_oid[op[1]].hash if op[1] is not None else "f" * 40
+        got = reg.get(hash=digest)
+        info = dict(query=True, answer=None if got is None else real.oids.get(id(got), (-1,))[0], digest=digest, got=got)
+        return "ok", "geth " + ("N" if op[1] is None else "i%d" % op[1]), info
+    if op[0] == "getn":
+        got = reg.get(task_name=op[1])
+        info = dict(query=True, answer=None if got is None else real.oids.get(id(got), (-1,))[0], got=got)
+        return "ok", line("getn", op[1]), info
+    if op[0] == "iter":
+        got = list(reg)
+        info = dict(query=True, answer=[real.oids.get(id(t), (-1,))[0] for t in got], got=got)
+        return "ok", "iter", info
     if op[0] == "ren":
         _, old, ns, name = op
         try:
@@ -233,6 +278,18 @@ def oracle(ctx, real, ops, op, st, info):
         if key != t.fullname or reg.get(task_name=t.fullname) is not t:
             ctx.violation("C37-not-under-current-name", "a registered task is not found under its current full name", case,
                           t.fullname, key, kind="history")
+    if op[0] == "geth":
+        got, digest = info["got"], info["digest"]
+        holders = [t for t in reg._tasks.values() if t.hash == digest]
+        if (got is None) != (not holders) or (got is not None and got.hash != digest):
+            ctx.violation("C37-get-by-hash-wrong", "get(hash=) does not return a registered task with that hash iff one exists", case,
+                          [t.fullname for t in holders], repr(got), kind="history")
+    if op[0] == "getn" and info["got"] is not reg._tasks.get(op[1]):
+        ctx.violation("C37-get-by-name-wrong", "get(task_name=) does not return the task registered under that name", case,
+                      repr(reg._tasks.get(op[1])), repr(info["got"]), kind="history")
+    if op[0] == "iter" and [id(t) for t in info["got"]] != [id(t) for t in reg._tasks.values()]:
+        ctx.violation("C37-iteration-wrong", "iterating the registry does not yield the registered tasks", case,
+                      len(reg._tasks), len(info["got"]), kind="history")
     if op[0] == "wrap" and st == "ok":
         wt, chain, w = info["wrapper"], info["chain"], info["wname"]
         vis_ns, vis_name = chain[0][1], chain[0][2]
@@ -254,7 +311,7 @@ def oracle(ctx, real, ops, op, st, info):
                                   fullname(ns, name), ptr, kind="history")
 
 
-def compare(ctx, ops, i, st, reply, real_dump, hmap, rmap):
+def compare(ctx, ops, i, st, reply, real_dump, hmap, rmap, info=None):
     """Model reply vs real registry; hashes compared through a bijection model pre-image <-> digest."""
     parts = unsx(reply)
     mst = str(parts[0])
@@ -262,6 +319,13 @@ def compare(ctx, ops, i, st, reply, real_dump, hmap, rmap):
     if mst != st:
         ctx.mismatch("operation status differs", case, mst, st)
         return False
+    if len(parts) == 5:         # a read-only query: its answer first
+        ans = parts[1]
+        parts = [parts[0]] + parts[2:]
+        m_ans = list(ans[1:]) if str(ans[0]) == "iter" else ans[1]
+        if info is None or m_ans != info.get("answer"):
+            ctx.mismatch("answer of the query differs", case, repr(m_ans), repr(info and info.get("answer")))
+            return False
     mt = [tuple(x) for x in parts[1][1:]]
     mc = [tuple(x) for x in parts[2][1:]]
     mh = list(parts[3][1:])
@@ -314,6 +378,10 @@ def run_history(ctx, mod, ops_or_len, rng=None):
 
 
 CORPUS = [
+    # read-only queries: hash of a redefined (no longer registered) task, a never registered hash, then more definitions
+    [("def", "", "a", 0), ("def", "", "a", 1), ("geth", 0), ("geth", 1), ("geth", None), ("getn", "a"), ("getn", "zz"), ("iter",),
+     ("def", "", "b", 0), ("wrap", "a", "w", None), ("geth", 0)],
+    [("def", "ns", "a", 0), ("wrap", "ns.a", "w", None), ("def", "ns", "a", 2), ("geth", 1), ("getn", "ns._w.a"), ("def", "ns", "a", 2)],
     [("def", "ns", "a", 0), ("wrap", "ns.a", "w", None), ("wrap", "ns.a", "v", None), ("wrap", "ns.a", "w", None)],
     [("def", "", "a", 0), ("wrap", "a", "w", None), ("def", "", "a", 0), ("wrap", "a", "w", None)],   # equal hashes under two names
     [("def", "", "a", 1), ("ren", "a", "x", "a"), ("def", "", "a", 1), ("ren", "x.a", "", "a")],
@@ -347,13 +415,14 @@ def run(ctx):
             good = True
             for i in range(len(ops)):
                 if good:
-                    good = compare(ctx, ops, i, sts[i], replies[pos], dumps[i], hmap, rmap)
+                    good = compare(ctx, ops, i, sts[i], replies[pos], dumps[i], hmap, rmap, infos[i])
                 pos += 1
             kinds = [o[0] for o in ops]
             ctx.case(key=None if len(ops) <= 1 and kinds[:1] in ([], ["def"]) else tuple(ops),
                      sample={"ops": [list(map(str, o)) for o in ops], "statuses": sts,
                              "final_keys": [t[0] for t in dumps[-1][0]] if dumps else []},
                      length=len(ops), wraps=min(kinds.count("wrap"), 4),
+                     queries=min(sum(kinds.count(k) for k in ("geth", "getn", "iter")), 5),
                      errors=",".join(sorted({s for s in sts if s != "ok"})) or "none",
                      max_count=max([n for d in dumps for _, n in d[1]] or [0]))
     finally:
@@ -381,12 +450,14 @@ def replay(ctx, case):
                 o[3] = int(o[3])
             if o[0] == "wrap":
                 o[3] = None if o[3] == "None" else o[3]
+            if o[0] == "geth":
+                o[1] = None if o[1] == "None" else int(o[1])
             conv.append(tuple(o))
         ops2, sts, reqs, dumps, infos = run_history(ctx, mod, conv)
         replies = ctx.model("C37", [str(r) for r in reqs])
         hmap, rmap = {}, {}
         for i in range(len(ops2)):
-            if not compare(ctx, ops2, i, sts[i], replies[i + 1], dumps[i], hmap, rmap):
+            if not compare(ctx, ops2, i, sts[i], replies[i + 1], dumps[i], hmap, rmap, infos[i]):
                 break
         ctx.case(key=tuple(ops2), sample={"ops": ops, "statuses": sts})
     finally:
